@@ -135,6 +135,19 @@ class SingleFunctionHandler:
         self.handler = handler
         self.args = self.__args__ = args
 
+    def __eq__(self, other):
+        return (
+            type(self) is type(other)
+            and self.handler is other.handler
+            and self.args == other.args
+        )
+
+    def __hash__(self):
+        try:
+            return hash((self.handler, self.args))
+        except TypeError:
+            return hash(self.handler)
+
     def __type_order__(self, other):
         results = self.handler(other, *self.args)
         if isinstance(results, TypeRelationship):
